@@ -163,12 +163,16 @@ Definition check_frames (task : string) (frames : list string) : res unit :=
 Definition metric_keys : list string :=
   ["center_distance_thresholds"; "plane_distance_thresholds"; "iou_2d_thresholds"; "iou_3d_thresholds"].
 
-(* `if thresholds: set_thresholds(thresholds, n, True) else: []` for the four keys, in order *)
+(* `if thresholds is not None and thresholds != []: set_thresholds(thresholds, n, True) else: []` for the four keys, in order (since
+   /repo 9bf00e4; it was a truthiness test, which silently dropped a scalar 0 / 0.0; None and the empty list keep meaning "not given") *)
+Definition metric_given (v : pyval) : bool :=
+  match v with NoneV => false | List [] => false | _ => true end.
+
 Fixpoint metric_lists (keys : list string) (c : cfg) (n : nat) : res (list pyval) :=
   match keys with
   | [] => Ok []
   | k :: t =>
-      bind (if py_truthy (get k c) then set_thresholds (get k c) n true else Ok (List [])) (fun l =>
+      bind (if metric_given (get k c) then set_thresholds (get k c) n true else Ok (List [])) (fun l =>
       bind (metric_lists t c n) (fun ls => Ok (l :: ls)))
   end.
 
